@@ -688,3 +688,73 @@ def family_rangetyped(tier, start=0):
             cases.append(Case(cid, "rangetyped", P, show(P.rules[-1])))
             cid += 1
     return _finish(cases), [{"a": ()}]
+
+
+def family_nullary(tier, start=0):
+    """Nullary relations (propositions) and disconnected existential atoms inside recursive components, in every position
+    of the recursive rule body (first / middle / last SCC atom), positive and negated from lower strata."""
+    cases = []
+    cid = start
+
+    def add(build, desc):
+        nonlocal cid
+        P = Program()
+        _edb_ae(P)
+        s = "_%d" % cid
+        build(P, s)
+        cases.append(Case(cid, "nullary", P, desc + ": " + " ".join(show(r) for r in P.rules[-2:])))
+        cid += 1
+
+    def rels(P, s, extra=()):
+        P.rel("p" + s, [("x", "number"), ("y", "number")], is_output=True)
+        P.rel("f" + s, [], is_output=True)
+        for n, ar in extra:
+            P.rel(n + s, [("x", "number")] * ar, is_output=True)
+
+    # proposition in the SCC, as first / last / middle SCC atom of the recursive rule
+    for pos in ("first", "last", "middle"):
+        def b(P, s, pos=pos):
+            rels(P, s)
+            p, f = "p" + s, "f" + s
+            P.rules.append(Rule([Atom(p, [X, Y])], [Atom("e", [X, Y])], None))
+            P.rules.append(Rule([Atom(f, [])], [Atom(p, [X, Y]), Cmp("<", Y, X)], None))
+            body = {"first": [Atom(f, []), Atom(p, [X, Y]), Atom("e", [Y, Z])],
+                    "last": [Atom(p, [X, Y]), Atom("e", [Y, Z]), Atom(f, [])],
+                    "middle": [Atom(p, [X, Y]), Atom(f, []), Atom("e", [Y, Z])]}[pos]
+            P.rules.append(Rule([Atom(p, [X, Z])], body, None))
+        add(b, "proposition-" + pos)
+    # two recursive atoms + proposition
+    def b2(P, s):
+        rels(P, s)
+        p, f = "p" + s, "f" + s
+        P.rules.append(Rule([Atom(p, [X, Y])], [Atom("e", [X, Y])], None))
+        P.rules.append(Rule([Atom(f, [])], [Atom(p, [X, X])], None))
+        P.rules.append(Rule([Atom(p, [X, Z])], [Atom(p, [X, Y]), Atom(p, [Y, Z]), Atom(f, [])], None))
+    add(b2, "nonlinear+proposition")
+    # disconnected existential atom from the SCC (becomes a nullary helper relation)
+    for pos in ("first", "last"):
+        def b3(P, s, pos=pos):
+            P.rel("r" + s, [("x", "number")], is_output=True)
+            r = "r" + s
+            P.rules.append(Rule([Atom(r, [X])], [Atom("a", [X])], None))
+            body = [Atom(r, [X]), Atom("e", [X, Y]), Atom(r, [Anon()])] if pos == "last" else [Atom(r, [Anon()]), Atom(r, [X]), Atom("e", [X, Y])]
+            P.rules.append(Rule([Atom(r, [Y])], body, None))
+        add(b3, "disconnected-existential-" + pos)
+    def b4(P, s):
+        P.rel("r" + s, [("x", "number")], is_output=True)
+        P.rel("t" + s, [("x", "number")], is_output=True)
+        r, t = "r" + s, "t" + s
+        P.rules.append(Rule([Atom(r, [X])], [Atom("a", [X])], None))
+        P.rules.append(Rule([Atom(t, [Y])], [Atom(r, [X]), Atom("e", [X, Y])], None))
+        P.rules.append(Rule([Atom(r, [Y])], [Atom(r, [X]), Atom("e", [X, Y]), Atom(t, [Z]), Cmp("<", Num(0), Z)], None))
+    add(b4, "disconnected-with-constraint")
+    # nullary from a lower stratum, positive and negated
+    for neg in (False, True):
+        def b5(P, s, neg=neg):
+            rels(P, s)
+            p, f = "p" + s, "f" + s
+            P.rules.append(Rule([Atom(f, [])], [Atom("a", [Num(1)])], None))
+            P.rules.append(Rule([Atom(p, [X, Y])], [Atom("e", [X, Y])], None))
+            P.rules.append(Rule([Atom(p, [X, Z])], [Atom(p, [X, Y]), Atom("e", [Y, Z]), Neg(Atom(f, [])) if neg else Atom(f, [])], None))
+        add(b5, "lower-stratum-proposition" + ("-negated" if neg else ""))
+    return _finish(cases)
